@@ -11,8 +11,8 @@ func init() {
 	vpHarnesses["VP_C16_access"] = VP_C16_access
 }
 
-var vpRootNames = []string{"m", "ti", "ts", "st", "nul", "tnil", "i", "i32", "i64", "f", "s", "b", "t", "arr", "abs", "missing", "this"}
-var vpKeyNames = []string{"k", "n", "inner", "z", "o", "e", "s", "Name", "Age", "missing", "m", "tn"}
+var vpRootNames = []string{"m", "ti", "ts", "st", "nul", "tnil", "i", "i32", "i64", "f", "s", "b", "t", "arr", "abs", "missing", "this", "nm", "ns"}
+var vpKeyNames = []string{"k", "n", "inner", "z", "o", "e", "s", "Name", "Age", "missing", "m", "tn", "abs", "nm", "ns"}
 
 type vpData struct {
 	top map[string]interface{}
@@ -34,7 +34,7 @@ func vpBuildData() *vpData {
 	d.bl = vpBool("bv")
 	d.tm = time.Date(2020, 1, 2, 3, 4, 5, 0, time.UTC)
 	d.arr = []interface{}{1, "x"}
-	inner := map[string]interface{}{"z": d.str, "tn": (*vpPerson)(nil)}
+	inner := map[string]interface{}{"z": d.str, "tn": (*vpPerson)(nil), "nm": map[string]interface{}(nil), "ns": []interface{}(nil)}
 	d.top = map[string]interface{}{
 		"m":    map[string]interface{}{"k": d.i, "n": nil, "inner": inner, "s": d.str, "tn": (*vpPerson)(nil)},
 		"ti":   map[string]int{"z": 0, "o": d.i},
@@ -44,6 +44,8 @@ func vpBuildData() *vpData {
 		"tnil": (*vpPerson)(nil),
 		"i":    d.i, "i32": d.i32, "i64": d.i64, "f": 2.5, "s": d.str, "b": d.bl, "t": d.tm, "arr": d.arr,
 		"abs": 42,
+		"nm":  map[string]interface{}(nil), // a nil map is an (empty) map, not null
+		"ns":  []interface{}(nil),
 	}
 	return d
 }
@@ -131,7 +133,7 @@ func vpSameValue(got, want interface{}) bool {
 		return ok && len(g) == len(w)
 	case map[string]interface{}:
 		g, ok := got.(map[string]interface{})
-		return ok && len(g) == len(w)
+		return ok && len(g) == len(w) && (g == nil) == (w == nil)
 	case map[string]int:
 		g, ok := got.(map[string]int)
 		return ok && len(g) == len(w)
